@@ -31,7 +31,7 @@ impl<R: Dev> Dev for Crc32Reader<R> {
 impl<R> Crc32Reader<R> {
 //@use crc32reader_new nobody
 //@use crc32reader_into_inner nobody
-//@use crc32reader_get_mut nobody
+//@use crc32reader_get_mut nobody optional
 }
 impl<R: Read> Read for Crc32Reader<R> {
 //@use crc32reader_read nobody
@@ -93,7 +93,7 @@ impl<'a> Read for ZipFileReader<'a> {
 //@include common/reader_std_models.rs
 //@impl src/read.rs | impl<'a> ZipFileReader<'a>
 impl<'a> ZipFileReader<'a> {
-//@use zipfilereader_authenticate_rest
+//@use zipfilereader_authenticate_rest optional
 //@use zipfilereader_into_inner
 }
 
